@@ -104,4 +104,44 @@ CLAIMED["C12"] = {
     "note": BASE_NOTE + "Patterns are alternations of optionally ^-anchored literals (translated fail-closed to Python regexes); blocks are the harness's raw blocks.",
     "technique": "Coq proof (accounting invariant of the generic loop, progress measure) + differential correspondence",
 }
+CLAIMED["C05"] = {
+    "text": "Theorems (closed): for every register list and every sequence of elements satisfying the per-element premise (typed: written "
+            "text is one line that dispatches to its own type and reads back its data; default: a line matching no identifier; all-None "
+            "registers vanish), write then read returns exactly the non-vanishing elements in order; all-None registers write nothing, "
+            "falsy data (0, '', -0.0) write a line; a decidable condition on the definition implies the dispatch premise. The premise is "
+            "discharged per kind by C01/C04. Tied to RegisterFile write/read/== on generated definitions and canonical data.",
+    "note": BASE_NOTE + "'fitting, canonical' is evaluated per case by the model; file == is covered by C15.",
+    "technique": "Coq proof (chunk/line decomposition of the written text, induction over the element list) + differential correspondence",
+}
+CLAIMED["C06"] = {
+    "text": "Theorems (closed): for every content x whose parsed elements are stable (vanish, or write a line that dispatches back and "
+            "whose re-read data write the same line), y = W(R x) satisfies W(R y) = y, and the lines of x matching no register are the "
+            "lines of y matching no register, in order; content produced by a write is reproduced. Stability of a typed line is C01's "
+            "text stability (float part by correspondence). Tied to read/write/read/write on grammar-generated and perturbed contents.",
+    "note": BASE_NOTE + "'representable' (finite floats, year >= 1000, values fit) is evaluated per case by the model.",
+    "technique": "Coq proof (projection over line chunks) + differential correspondence",
+}
+CLAIMED["C10"] = {
+    "text": "Theorems (closed): a written positional register starts with its left-justified identifier, is recognised by its own type and "
+            "ends with one newline; reading k registers from k concatenated line chunks consumes exactly one chunk per read (any k); a "
+            "contiguous binary layout writes identifier+field widths bytes and reading consumes exactly that, so binary streams stay "
+            "aligned; the code as found is refuted. Tied to Register.write/matches/read + buffer.tell() in three storages over streams of 1-8.",
+    "note": BASE_NOTE + "Delimited form: identifier-first-token is checked by the oracle; data equality per record is C01/C09/C11.",
+    "technique": "Coq proof (stream alignment by induction over the record list, frame lemma for identifier columns) + differential correspondence",
+}
+CLAIMED["C13"] = {
+    "text": "Theorems (closed): for every section list and EVERY content (shorter than expected included) reading terminates, writing "
+            "reproduces the content, declared sections come first exactly once in order, each starting where the previous stopped, and the "
+            "remaining lines become one default section per line. Tied to SectionFile.read/write with raw sections, complete small scope.",
+    "note": BASE_NOTE + "Sections are the harness's raw sections (fixed line counts / until-pattern).",
+    "technique": "Coq proof (fold over declared sections + default loop) + differential correspondence (exhaustive small scope)",
+}
+CLAIMED["C18"] = {
+    "text": "Theorems (closed): generic progress argument (readers split their input and consume >= 1 character => the loop terminates "
+            "within |input|+1 steps with <= |input| elements), instantiated for text register files (one element per line), binary register "
+            "files (repaired default register; peek window and records >= 1 byte), block files (text/binary) and section files (+ declared). "
+            "The code as found is proved to diverge for every fuel. Tied to the implementation under a deterministic call-count budget.",
+    "note": BASE_NOTE + "Termination of the real code is observed under a call budget proportional to the content length.",
+    "technique": "Coq proof (well-founded measure = remaining input, fuel sufficiency) + differential correspondence with deterministic step budget",
+}
 NOT_APPLICABLE = {}
